@@ -49,6 +49,15 @@ func main() {
 		}
 		return
 	}
+	if *dump == "effects" {
+		E := P.Effects()
+		for _, f := range P.RepoFns {
+			if w := E.dirtyFail[f]; w != nil {
+				fmt.Println("DIRTYFAIL", w.String(P))
+			}
+		}
+		return
+	}
 	if *dump != "" {
 		doDump(P, *dump)
 		return
